@@ -31,7 +31,7 @@ const ID = "C10"
 var Targets = []string{"csv", "html", "json", "markdown", "ascii-simple", "none", "utf8-light", "utf8-light-curved", "utf8-heavy", "utf8-double"}
 
 // WrapKinds: what may be nested around the table ("texttable:<deco>" = a text wrapper set to that decoration).
-var WrapKinds = []string{"csv", "html", "json", "markdown", "texttable", "texttable:ascii-simple", "texttable:none"}
+var WrapKinds = []string{"csv", "html", "json", "markdown", "texttable", "texttable:ascii-simple", "texttable:none", "app"}
 
 type Case struct {
 	Script gen.Script   `json:"script"`          // Script.Creator is the creation path
@@ -48,8 +48,14 @@ type Case struct {
 	Poison bool         `json:"poison,omitempty"` // first, a sibling table is rendered in the target format and fails part-way  // >0: a long-lived target wrapper is created and rendered after Pre-1 operations, and rendered again at the end
 }
 
+// appTable is an application's own table type: it embeds a tabular.Table (the documentation invites that) and
+// adds nothing.  Handed around by value.
+type appTable struct{ tabular.Table }
+
 func wrapOne(t tabular.Table, kind string) tabular.Table {
 	switch {
+	case kind == "app":
+		return appTable{t}
 	case kind == "csv":
 		return csv.Wrap(t)
 	case kind == "html":
